@@ -184,6 +184,17 @@ def text_filter():
         cases += 1
         if sorted(store.get_supported_languages()) != sorted({str(t.Lang) for t in texts}):
             bad.append({'key': 'supported-languages', 'detail': f'{store.get_supported_languages()} vs stored {sorted({t.Lang for t in texts})}'})
+        # the answer follows the store: texts added after a first query (new language, new version) are visible
+        cases += 1
+        extra = [pm_types.LocalizedText('neu', lang='it', ref=rnd.choice(refs), version=rnd.choice([0, 4])),
+                 pm_types.LocalizedText('new', lang=rnd.choice(langs), ref='r9', version=5)]
+        store.add(*extra)
+        all_texts = texts + extra
+        if sorted(store.get_supported_languages()) != sorted({str(t.Lang) for t in all_texts}):
+            bad.append({'key': 'supported-languages-stale', 'detail': f'after add(): {sorted(store.get_supported_languages())} vs stored {sorted({str(t.Lang) for t in all_texts})}'})
+        got = store.filter_localized_texts(['r9'], None, None, None, None)
+        if [id(t) for t in got] != [id(extra[1])]:
+            bad.append({'key': 'text-filter-stale', 'detail': f'after add(): filter(ref r9) returned {len(got)} texts, expected the added one'})
         if len(bad) > 4:
             break
     return cases, bad
